@@ -107,6 +107,17 @@ def accounting_ok(w, names):
     return ok
 
 
+def _blocked(w, S, e1, e2, h2):
+    """The daemon blocked.  That is C05's subject inside the region of its listed finding (a non-exclusive kill request overlapping an
+    operation that reaps, or a vetoed worker that was deleted from the table while its kill is pending); anywhere else a daemon that blocks
+    never reaches a quiescent point at all -- the accounting is never made right."""
+    used = [EVENTS[e1]] + ([EVENTS[e2]] if S.get('K', 1) >= 2 else [])
+    if scen.EV_KILLCMD in used or h2 != 0:
+        return rt.skip()
+    rt.note('the daemon blocked during %r: zombies and dead table entries are never cleaned up', [scen.NAMES.get(e, e) for e in used])
+    return rt.verdict(False)
+
+
 def c04_history(e1: int, p1: int, g1: int, e2: int, p2: int, h1: int, h2: int, sf: int, d: int, v: int, tgt: int) -> bool:
     """
     pre: e1 == rt.S['e1'] and 0 <= e2 < len(EVENTS)
@@ -139,7 +150,7 @@ def c04_history(e1: int, p1: int, g1: int, e2: int, p2: int, h1: int, h2: int, s
             ha = Hook([0] * n0 + list(SCRIPTS[h2]))
             hooks = {'before_spawn': (hb, False), 'after_spawn': (ha, False)}
             w.had_spawn_veto = (h2 != 0)
-        wa = w.mk_watcher('a', numprocesses=n0, graceful_timeout=0.2, hooks=hooks or None)
+        wa = w.mk_watcher('a', numprocesses=n0, graceful_timeout=S.get('gt', 0.2), hooks=hooks or None)
         wb = w.mk_watcher('b', numprocesses=1, graceful_timeout=0.2)
         names = ['a'] if S.get('single') else ['a', 'b']
         w.boot([wa] if S.get('single') else [wa, wb])
@@ -162,7 +173,7 @@ def c04_history(e1: int, p1: int, g1: int, e2: int, p2: int, h1: int, h2: int, s
                 sc.apply(EVENTS[e2], p2)
             w.quiesce()
             if w.clock.tripped:
-                return rt.skip()
+                return _blocked(w, S, e1, e2, h2)
             # first quiescent point, before any periodic check: every LIVE child must already be tracked
             w.run_for(0.002)            # (a SIGKILLed process needs its moment to die)
             tracked = set()
@@ -177,7 +188,7 @@ def c04_history(e1: int, p1: int, g1: int, e2: int, p2: int, h1: int, h2: int, s
             k.injections = [i for i in k.injections if i.get('done')]
             sc.settle(checks=2)
             if w.clock.tripped:
-                return rt.skip()
+                return _blocked(w, S, e1, e2, h2)
             return rt.verdict(accounting_ok(w, names) and early_ok)
         except (scen.Diverged, scen.BlockedLoop):
             return rt.skip()
@@ -288,6 +299,8 @@ def plan(tier):
         for hook in (('before', 'after') if q else ('before', 'after', 'both')):
             sh.append({'e1': e, 'K': 1, 'n0': 1, 'beh': 0, 'hmax': 5, 'hook': hook, 'sfmax': 1 if q else 3})
             sh.append({'e1': e, 'K': 1, 'n0': 1, 'beh': 2, 'hmax': 5, 'hook': hook})
+    for e in (2, 3, 5, 7):           # decr, set numprocesses, reload, stop with graceful_timeout 0 and workers that ignore the stop signal
+        sh.append({'e1': e, 'K': 1, 'n0': 2, 'beh': 2, 'gt': 0})
     sh.append({'e1': 2, 'K': 1, 'n0': 1, 'beh': 2, 'single': True})
     sh.append({'e1': 9, 'K': 2, 'n0': 2, 'beh': 2})           # a kill request in its grace period, then any second event
     sh.append({'e1': 2, 'K': 1, 'n0': 2, 'beh': 2, 'single': True, 'dmax': 12})
@@ -296,7 +309,7 @@ def plan(tier):
         Cond('c04_history', shards=sh, budget=200 if q else 1500, twins=2,
              bounds={'e1,e2': 'S: %d-event menu' % len(EVENTS), 'p': 'R[-1,2]', 'g1': 'S{now, quiescence}', 'tgt': 'S{watcher a, watcher b}',
                      'h1,h2': 'S: before_spawn / after_spawn outcome scripts (true/false/raise for the next call x afterwards)',
-                     'sf': 'R[-1,sfmax] index of the failing exec', 'd': 'R[0,dmax] kernel call of an injected death', 'beh': 'S{obey, stubborn}'}),
+                     'sf': 'R[-1,sfmax] index of the failing exec', 'd': 'R[0,dmax] kernel call of an injected death', 'beh': 'S{obey, stubborn}', 'gt': 'S: graceful_timeout {0.2 s, 0}'}),
         Cond('c04_step', shards=step, budget=200 if q else 1200, twins=2,
              bounds={'np': 'S[0,2]', 'm': 'S[0,2]', 's_i': 'S{alive, zombie, gone}', 'e': 'S: shard key over the event menu', 'd': 'R[0,dmax]'}),
     ]
